@@ -213,6 +213,8 @@ def protocol_get_model(ctx, repo, rule):
 
         def make(a, k, requests=requests, state=state, log=log, answer_at=answer_at):
             idx = len(requests) + 1
+            if idx > 40:
+                raise PyRaise("model: more than 40 attempts for a budget of at most 3 (the retry loop does not spend its budget)")
             r = Obj(None, {"send_bytes": b"REQ%d" % idx, "last_destination": None, "_idx": idx}, name=f"request{idx}")
 
             def wait(a2, k2, idx=idx):
